@@ -1258,7 +1258,9 @@ def m_opt_more(ex, a, m):
     if op == 'unwrap_or_else': return x if is_some else ex.call_value(a[1], [])
     if op == 'unwrap_or_default':
         if is_some: return x
-        raise Unsupported('Option::unwrap_or_default on None (Default of unknown type)')
+        t = callee_generic(ex)
+        if t is None: raise Unsupported('Option::unwrap_or_default on None (Default of unknown type)')
+        return default_of_type(ex, t)
     if op == 'map_or_else': return ex.call_value(a[2], [x]) if is_some else ex.call_value(a[1], [])
     if op == 'ok_or': return ok(x) if is_some else err(a[1])
     if op == 'is_some_and': return Bool(False) if not is_some else ex.call_value(a[1], [x])
@@ -1312,6 +1314,42 @@ def m_res_more(ex, a, m):
     if op in ('inspect', 'inspect_err'):
         if isok == (op == 'inspect'): ex.call_value(a[1], [Ptr(v.fields[0], 'ref')])
         return v
+def default_of_type(ex, ty):
+    """`T::default()` for the std types that occur in the crate, or the crate's own Default impl"""
+    ty = re.sub(r"^(std|core|alloc)::(\w+::)*", '', ty.strip())
+    base = re.sub(r"<.*", '', ty).split('::')[-1]
+    if base == 'Vec' or base == 'VecDeque': return VecV()
+    if base == 'String': return StrV([])
+    if base == 'Option': return none()
+    if base in ('BTreeMap', 'HashMap', 'BTreeSet', 'HashSet'): return MapV(base.startswith('BTree'))
+    if base == 'bool': return Bool(False)
+    if base in INT_BITS: return Int(0, base)
+    if base in ('f64', 'f32'): return F64(0.0)
+    if base == '()': return UNIT
+    f = ex.prog.by_key.get(('Default', base, 'default'))
+    if f is not None: return ex.run_fn(f, [])
+    raise Unsupported(f'Default of {ty}')
+def callee_generic(ex, pos=0):
+    """the pos-th top-level generic argument of the first `::<...>` of the current callee"""
+    c = ex.cur_callee or ''
+    i = c.find('::<')
+    if i < 0: return None
+    j = i + 3; d = 1; args = ['']
+    while j < len(c) and d:
+        ch = c[j]
+        if ch == '<': d += 1
+        elif ch == '>':
+            d -= 1
+            if d == 0: break
+        if ch == ',' and d == 1: args.append('')
+        else: args[-1] += ch
+        j += 1
+    return args[pos].strip() if pos < len(args) else None
+@model_rx(r'^<.* as (?:std::default::)?Default>::default$')
+def m_default_any(ex, a, m):
+    mm = re.match(r'^<(.*) as ', ex.cur_callee or '')
+    return default_of_type(ex, mm.group(1) if mm else '?')
+
 @model_rx(r'^(std::mem|core::mem)::(swap|replace|take)$')
 def m_mem(ex, a, m):
     op = m.group(2)
@@ -1324,7 +1362,10 @@ def m_mem(ex, a, m):
     elif isinstance(old, StrV): c.v = StrV([])
     elif isinstance(old, MapV): c.v = MapV(old.ordered)
     elif isinstance(old, Agg) and old.ty == 'Option': c.v = none()
-    else: raise Unsupported('mem::take of ' + type(old).__name__)
+    else:
+        t = callee_generic(ex)
+        if t is None: raise Unsupported('mem::take of ' + type(old).__name__)
+        c.v = default_of_type(ex, t)
     return old
 
 # ------------------------------------------------------------------------------------------ Rc / Arc identity and misc
@@ -1816,6 +1857,23 @@ def m_sj_to_string(ex, a, m):
     except JsonSerErr as e: return e.r
     return ok(StrV(tree_text(ex, t)))
 
+# ------------------------------------------------------------------------------------------ OnceLock / OnceCell: a cell holding an Option
+@model_rx(r'^(?:std::sync::|std::cell::|core::cell::|once_cell::\w+::)?(OnceLock|OnceCell)::(new|get|get_mut|set|get_or_init|into_inner|take|try_insert)$')
+def m_once(ex, a, m):
+    op = m.group(2)
+    if op == 'new': return Agg('struct', 'OnceLock', None, [Cell(none())])
+    o = deref_all(a[0]) if isinstance(a[0], Ptr) else a[0]; slot = o.fields[0]; cur = slot.v
+    if op in ('get', 'get_mut'): return some(Ptr(cur.fields[0], 'ref')) if cur.variant == 'Some' else none()
+    if op == 'set':
+        if cur.variant == 'Some': return err(a[1])
+        slot.v = some(a[1]); return ok(UNIT)
+    if op == 'get_or_init':
+        if cur.variant != 'Some': slot.v = some(ex.call_value(a[1], []))
+        return Ptr(slot.v.fields[0], 'ref')
+    if op == 'into_inner': return cur
+    if op == 'take': slot.v = none(); return cur
+    raise Unsupported('OnceLock::' + op)
+
 # ------------------------------------------------------------------------------------------ thread_local!: one thread per path, storage persistent on the path
 @model_rx(r'^(?:std::thread::)?LocalKey::new$')
 def m_localkey_new(ex, a, m): return Agg('struct', 'LocalKey', None, [Cell(Opaque(('tls', (ex.cur_fn or '').split('::')[-1])))])
@@ -1868,7 +1926,10 @@ def m_entry_ops(ex, a, m):
         if op == 'or_insert': e.mp.d[e.key] = Cell(a[1])
         elif op == 'or_insert_with': e.mp.d[e.key] = Cell(ex.call_value(a[1], []))
         elif op == 'or_insert_with_key': e.mp.d[e.key] = Cell(ex.call_value(a[1], [Ptr(Cell(rstr(e.key)), 'ref')]))
-        else: raise Unsupported('Entry::or_default (Default of an unknown type)')
+        else:
+            t = callee_generic(ex, 1)
+            if t is None: raise Unsupported('Entry::or_default (Default of an unknown type)')
+            e.mp.d[e.key] = Cell(default_of_type(ex, t))
     return Ptr(e.mp.d[e.key], 'ref')
 
 @model_rx(r'^(?:core::|alloc::|std::)?slice::<impl \[.*\]>::(split_at|split_at_mut|split_first_chunk|chunks|windows)$')
